@@ -165,7 +165,7 @@ pub fn edited(seq: &[RegOp], e: &Edit) -> Vec<RegOp> {
     v
 }
 
-fn run_e2e(a: &[RegOp], b: &[RegOp], equal: bool) -> Option<Fail> {
+fn run_e2e(a: &[RegOp], b: &[RegOp], equal: bool, reconnect: bool) -> Option<Fail> {
     use crate::sim::apps::{DisconnectRequests, MismatchSeen};
     let mut server = build(a, AuthMethod::ProtocolCheck);
     let mut client = build(b, AuthMethod::ProtocolCheck);
@@ -182,21 +182,39 @@ fn run_e2e(a: &[RegOp], b: &[RegOp], equal: bool) -> Option<Fail> {
     server.world_mut().resource_mut::<RepliconServer>().set_running(true);
     let id = server.world_mut().spawn(ConnectedClient { max_size: 1200 }).id();
     client.world_mut().resource_mut::<RepliconClient>().set_status(RepliconClientStatus::Connected);
-    for _ in 0..4 {
-        client.update();
-        let sent: Vec<_> = client.world_mut().resource_mut::<RepliconClient>().drain_sent().collect();
-        for (ch, m) in sent {
-            server.world_mut().resource_mut::<RepliconServer>().insert_received(id, ch, m);
-        }
-        server.update();
-        let sent: Vec<_> = server.world_mut().resource_mut::<RepliconServer>().drain_sent().collect();
-        for (e, ch, m) in sent {
-            if e == id {
-                client.world_mut().resource_mut::<RepliconClient>().insert_received(ch, m);
+    let exchange = |server: &mut App, client: &mut App, id: Entity| {
+        for _ in 0..4 {
+            client.update();
+            let sent: Vec<_> = client.world_mut().resource_mut::<RepliconClient>().drain_sent().collect();
+            for (ch, m) in sent {
+                server.world_mut().resource_mut::<RepliconServer>().insert_received(id, ch, m);
+            }
+            server.update();
+            let sent: Vec<_> = server.world_mut().resource_mut::<RepliconServer>().drain_sent().collect();
+            for (e, ch, m) in sent {
+                if e == id {
+                    client.world_mut().resource_mut::<RepliconClient>().insert_received(ch, m);
+                }
             }
         }
+        client.update();
+    };
+    exchange(&mut server, &mut client, id);
+    // second session of the same client app: the handshake must work again
+    let mut id = id;
+    if reconnect {
+        client.world_mut().resource_mut::<RepliconClient>().set_status(RepliconClientStatus::Disconnected);
+        server.world_mut().entity_mut(id).despawn();
+        client.update();
+        server.update();
+        let _ = client.world_mut().resource_mut::<RepliconClient>().drain_sent().count();
+        let _ = server.world_mut().resource_mut::<RepliconServer>().drain_sent().count();
+        client.world_mut().resource_mut::<MismatchSeen>().0 = 0;
+        server.world_mut().resource_mut::<DisconnectRequests>().0.clear();
+        id = server.world_mut().spawn(ConnectedClient { max_size: 1200 }).id();
+        client.world_mut().resource_mut::<RepliconClient>().set_status(RepliconClientStatus::Connected);
+        exchange(&mut server, &mut client, id);
     }
-    client.update();
     let authorized = server.world().entity(id).contains::<AuthorizedClient>();
     let seen = client.world().resource::<MismatchSeen>().0;
     let requested = server.world().resource::<DisconnectRequests>().0.contains(&id);
@@ -238,7 +256,7 @@ pub fn run(c: &Case) -> Outcome {
         return Outcome::failed(Fail::new("C14.collision", format!("different sequences hash equally: {a:?} vs {b:?} ({ha:?})")));
     }
     if c.e2e {
-        if let Some(f) = run_e2e(&a, &b, equal) {
+        if let Some(f) = run_e2e(&a, &b, equal, c.seq.len() % 2 == 1) {
             return Outcome::failed(f);
         }
     }
